@@ -49,7 +49,11 @@ class UserClass:
         self.methods = {}
         self.props = {}
         self.attrs = {}
+        self.base_names = [ast.unparse(b) for b in node.bases]
+        self._bases_done = False
         for st in node.body:
+            if isinstance(st, ast.Assign) and len(st.targets) == 1 and isinstance(st.targets[0], ast.Name):
+                self.attrs[st.targets[0].id] = st.value
             if isinstance(st, ast.FunctionDef):
                 decs = [ast.unparse(d) for d in st.decorator_list]
                 if "overload" in decs:
@@ -58,6 +62,23 @@ class UserClass:
                     self.props[st.name] = UserFunc(module, st)
                 else:
                     self.methods[st.name] = UserFunc(module, st)
+
+
+    def link_bases(self, interp):
+        if self._bases_done:
+            return
+        self._bases_done = True
+        for bn in self.base_names:
+            b = self.module.globals.get(bn)
+            b = interp.resolve_lazy(b) if b is not None else None
+            if isinstance(b, UserClass):
+                b.link_bases(interp)
+                for k, v in b.methods.items():
+                    self.methods.setdefault(k, v)
+                for k, v in b.props.items():
+                    self.props.setdefault(k, v)
+                for k, v in b.attrs.items():
+                    self.attrs.setdefault(k, (b, v) if not isinstance(v, tuple) else v)
 
 
 class Instance:
@@ -135,7 +156,8 @@ class Interp:
         self.fact_list = []
         self.prune_timeout_ms = prune_timeout_ms
         self.prune_cache = {}
-        self.prune_with_pc = True
+        self.prune_mode = "facts"   # off | facts | pc
+        self._lemmas_in_facts = 0
         self.stats = {"branches_sym": 0, "branches_pruned": 0, "obligations_folded": 0, "stmts": 0, "calls": 0}
         self.int_bounds = {}       # term id -> (lo, hi)
         self.encoded = {}          # qualified function name -> source hash
@@ -171,9 +193,11 @@ class Interp:
         s = simp_bool(z3.simplify(cond))
         if isinstance(s, bool):
             return s
-        if self.facts is None and not st.pc:
+        mode = self.prune_mode
+        if mode == "off" or (self.facts is None and mode == "facts"):
             return cond
-        key = (cond.get_id(), tuple(p.get_id() for p in st.pc) if self.prune_with_pc else ())
+        use_pc = mode == "pc"
+        key = (cond.get_id(), tuple(p.get_id() for p in st.pc) if use_pc else ())
         hit = self.prune_cache.get(key)
         if hit is not None:
             return hit[0]
@@ -183,10 +207,11 @@ class Interp:
         res = cond
         self.facts.push()
         try:
-            if self.prune_with_pc:
+            if use_pc:
                 for p in st.pc:
                     self.facts.add(p)
-            for lm in self.A.lemmas[-50:]:
+            nl = len(self.A.lemmas)
+            if nl > self._lemmas_in_facts:
                 pass
             self.facts.push()
             self.facts.add(z3.Not(cond))
@@ -817,10 +842,43 @@ class Interp:
             return [(z_and(*[x[i][0] for x in inners]), (lambda i=i: tuple(x[i][1]() for x in inners))) for i in range(n)]
         raise Unsupported(f"iteration over {type(itv).__name__}")
 
-    def bounds_of(self, v):
+    def bounds_of(self, v, depth=0):
+        """Structural interval of an integer term (ite / + / - / constant multiples), with registered bounds as leaves."""
         if not is_sym(v):
             return (v, v)
-        return self.int_bounds.get(v.get_id(), (None, None))
+        hit = self.int_bounds.get(v.get_id())
+        if hit is not None:
+            return hit
+        if depth > 200:
+            return (None, None)
+        res = (None, None)
+        if z3.is_int_value(v):
+            res = (v.as_long(), v.as_long())
+        elif z3.is_app_of(v, z3.Z3_OP_ITE):
+            a = self.bounds_of(v.arg(1), depth + 1)
+            b = self.bounds_of(v.arg(2), depth + 1)
+            if None not in a and None not in b:
+                res = (min(a[0], b[0]), max(a[1], b[1]))
+        elif z3.is_app_of(v, z3.Z3_OP_ADD):
+            lo = hi = 0
+            for c in v.children():
+                b = self.bounds_of(c, depth + 1)
+                if None in b:
+                    lo = None
+                    break
+                lo += b[0]
+                hi += b[1]
+            if lo is not None:
+                res = (lo, hi)
+        elif z3.is_app_of(v, z3.Z3_OP_SUB) and v.num_args() == 2:
+            a = self.bounds_of(v.arg(0), depth + 1)
+            b = self.bounds_of(v.arg(1), depth + 1)
+            if None not in a and None not in b:
+                res = (a[0] - b[1], a[1] - b[0])
+        elif z3.is_app_of(v, z3.Z3_OP_TO_REAL) or z3.is_app_of(v, z3.Z3_OP_TO_INT):
+            res = self.bounds_of(v.arg(0), depth + 1)
+        self.int_bounds[v.get_id()] = res
+        return res
 
     def _loop(self, st, s, _unused, items, while_test=None):
         def run_from(st, i):
@@ -1024,6 +1082,8 @@ class Interp:
 
     def ex_UnaryOp(self, st, e):
         v = self.eval(st, e.operand)
+        if hasattr(v, "pysym_unary"):
+            return v.pysym_unary(self, st, type(e.op).__name__)
         if isinstance(e.op, ast.Not):
             return z_not(self.truth(st, v))
         if isinstance(e.op, ast.USub):
@@ -1192,6 +1252,15 @@ class Interp:
             if attr in base.fields:
                 return base.fields[attr]
             cls = base.cls
+            cls.link_bases(self)
+            if attr in cls.attrs:
+                node = cls.attrs[attr]
+                owner = cls
+                if isinstance(node, tuple):
+                    owner, node = node
+                tmp = State()
+                tmp.module, tmp.closure = owner.module, None
+                return self.eval(tmp, node)
             if attr in cls.props:
                 return self.call_function(st, cls.props[attr], [base])
             if attr in cls.methods:
@@ -1239,6 +1308,7 @@ class Interp:
         raise Raised("TypeError", f"{type(fn).__name__} is not callable")
 
     def instantiate(self, st, cls, args, kwargs):
+        cls.link_bases(self)
         inst = Instance(cls)
         init = cls.methods.get("__init__")
         if init is not None:
